@@ -236,9 +236,9 @@ func init() {
 		// the way the ambassador treats a DID document payload received from the network
 		call := func(raw []byte) func() string {
 			return func() string {
-				var d did.Document
-				if err := json.Unmarshal(raw, &d); err != nil {
-					return "parse-err"
+				d, perr := parseDocGuarded(s, raw)
+				if perr != "" {
+					return perr
 				}
 				if err := didnuts.NetworkDocumentValidator().Validate(d); err != nil {
 					return "invalid"
@@ -261,9 +261,9 @@ func init() {
 		nameM := "didnuts.ManagedDocumentValidator"
 		callM := func(raw []byte) func() string {
 			return func() string {
-				var d did.Document
-				if err := json.Unmarshal(raw, &d); err != nil {
-					return "parse-err"
+				d, perr := parseDocGuarded(s, raw)
+				if perr != "" {
+					return perr
 				}
 				sr := resolver.DIDServiceResolver{Resolver: fixedResolver{&d}}
 				if err := didnuts.ManagedDocumentValidator(sr).Validate(d); err != nil {
@@ -426,3 +426,26 @@ func (f fixedResolver) Resolve(id did.DID, _ *resolver.ResolveMetadata) (*did.Do
 }
 
 var _ = ssi.URI{}
+
+// parseDocGuarded is the harness's own parse step in front of the validator entry points. The node's parse
+// steps (ambassador callback, did:web resolver) are swept as entry points of their own; a panic of the go-did
+// parser HERE is therefore recorded as an observation, not judged.
+func parseDocGuarded(s *crash.Sweep, raw []byte) (d did.Document, outcome string) {
+	defer func() {
+		if r := recover(); r != nil {
+			s.R.Observation("go-did Document.UnmarshalJSON panics (harness-side parse step; the node's own call sites are judged by the ambassador and did:web entries)", map[string]any{"panic": fmt.Sprint(r), "input": string(raw[:minInt(len(raw), 400)])})
+			outcome = "parse-panic-in-harness-step"
+		}
+	}()
+	if err := json.Unmarshal(raw, &d); err != nil {
+		return d, "parse-err"
+	}
+	return d, ""
+}
+
+func minInt(a, b int) int {
+	if a < b {
+		return a
+	}
+	return b
+}
